@@ -1,6 +1,6 @@
 namespace go c09.new
 enum E { A = 1, B = 2 }
-struct Inner { 1: i32 a, 2: optional string b, 3: optional list<i32> c, 4: optional bool flag, 5: optional map<string, i32> cnt, 6: optional map<i32, string> names }
+struct Inner { 1: i32 a, 2: optional string b, 3: optional list<i32> c, 4: optional bool flag, 5: optional map<string, i32> cnt, 6: optional map<i32, string> names, 8: optional string tag = "none" }
 struct Empty {}
 union Arm { 1: i32 x, 2: string y }
 struct Root {
